@@ -408,6 +408,27 @@ class Oracle:
         except Exception as ex:
             self.report(what + "-equal-limits", "i.%s(x, x) raises %s; ValueError documented" % (what, type(ex).__name__),
                         ctor, "i.%s(%r, %r)" % (what, xs[0] + 0.25 * span, xs[0] + 0.25 * span), [xs, ys])
+        # a limit that is itself an exact zero (a tabulated point with ordinate 0): whatever is returned must be a
+        # zero inside the interval (the zero at the limit qualifies); a ValueError is accepted
+        zeros = [x for x, v in samp if v == 0]
+        for z in zeros[:3]:
+            others = [x for x, v in clear if abs(x - z) > 1e-3]
+            rng.shuffle(others)
+            for o in others[:3]:
+                for xl, xh in ((z, o), (o, z)):
+                    self.n += 1
+                    a, b = min(z, o), max(z, o)
+                    call = "i.%s(%r, %r)" % (what, xl, xh)
+                    try:
+                        r = getattr(it, what)(xl, xh)
+                    except ValueError:
+                        continue
+                    except Exception as ex:
+                        self.report(what + "-wrong-exception", "%s raises %s" % (call, type(ex).__name__), ctor, call, [xs, ys, xl, xh]); return
+                    if not isinstance(r, (int, float)) or not (a <= r <= b) or \
+                            not abs(peval(P, r)) <= Fr(1, 10**9) * Fr(max(big, float(pabs_eval(P, r)))):
+                        self.report(what + "-not-a-zero", "%s = %r: not a zero inside the interval (value %.3g there; the limit %r is an exact zero)"
+                                    % (call, r, float(peval(P, r)) if isinstance(r, (int, float)) else float("nan"), z), ctor, call, [xs, ys, xl, xh]); return
         # no sign change on a clear interval: a returned value must still be a zero inside the interval
         same = [(clear[i][0], clear[j][0]) for i in range(len(clear)) for j in range(i + 1, len(clear))
                 if clear[i][1] * clear[j][1] > 0 and clear[j][0] - clear[i][0] > 1e-3]
@@ -671,6 +692,9 @@ def search(rng, tier, deep):
     for t in range(ntab):
         n = 2 + t % 8
         xs, ys, kind, cs = gen_table(rng, n)
+        if t % 6 == 5 and n >= 3 and cs is None:
+            # a tabulated point with ordinate exactly 0: a root at a node, reachable as an interval limit
+            ys = list(ys); ys[rng.randrange(n)] = 0.0; kind = kind + "+zero-node"
         kinds[kind] = kinds.get(kind, 0) + 1
         r = O.check_values(rng, xs, ys, cs)
         if r is None:
